@@ -82,7 +82,7 @@ func influxExpected(w *workload) (out []rec, points int) {
 					add("le."+fmtBound(b), float64(cnt), "timer.histogram")
 				}
 				for _, field := range []string{"lower", "upper", "count", "rate", "mean", "median", "stddev", "sum", "sum_squares"} {
-					forbidden = append(forbidden, rec{Name: s.Name + "\x01" + field, Tags: tg, Class: gsdSummary, Ser: i, Forbidden: true})
+					forbidden = append(forbidden, rec{Name: s.Name + "\x01" + field, Tags: tg, Class: gsdClass(s), Ser: i, Forbidden: true})
 				}
 				break
 			}
